@@ -12,6 +12,7 @@ import (
 	"github.com/issue9/errwrap"
 
 	"github.com/issue9/mux/v9/header"
+	"github.com/issue9/mux/v9/internal/syntax"
 	"github.com/issue9/mux/v9/internal/tree"
 	"github.com/issue9/mux/v9/types"
 )
@@ -33,6 +34,8 @@ type (
 		urlDomain   string
 		recoverFunc RecoverFunc
 		matcher     Matcher
+
+		interceptors *syntax.Interceptors // 与 tree 采用相同的拦截器
 	}
 
 	// CallFunc 指定如何调用用户给定的类型 T
@@ -84,6 +87,8 @@ func NewRouter[T any](
 		cors:        opt.cors,
 		urlDomain:   opt.urlDomain,
 		recoverFunc: opt.recoverFunc,
+
+		interceptors: opt.interceptors,
 	}
 
 	return r
@@ -180,7 +185,7 @@ func (r *Router[T]) URL(strict bool, pattern string, params map[string]string) (
 			return "", err
 		}
 	default:
-		if err := emptyInterceptors.URL(&buf, pattern, params); err != nil {
+		if err := r.interceptors.URL(&buf, pattern, params); err != nil {
 			return "", err
 		}
 	}
